@@ -293,7 +293,19 @@ impl Hist {
         }
         let shared = self.w.mint_of(self.pool, share_a);
         let newm = if spec2.mint_kind >= 1 { self.w.create_t22_mint(None) } else { self.w.create_spl_mint() };
-        let pool2 = self.w.init_pool(cfg, &shared, &newm, ts, start_sqrt_price(spec2)).ok()?;
+        let pool2 = match &spec2.adaptive {
+            Some(k) => {
+                let auth = self.w.new_signer();
+                let index = 2048u16.wrapping_add(ts % 1000);
+                let ix = self.w.ix_init_adaptive_fee_tier(cfg, index, ts, Pubkey::default(), Pubkey::default(), spec2.fee_rate.min(60000), k);
+                if self.w.exec(&ix).ok() {
+                    self.w.init_pool_adaptive(cfg, &shared, &newm, index, ts, auth, start_sqrt_price(spec2), None).ok()?
+                } else {
+                    self.w.init_pool(cfg, &shared, &newm, ts, start_sqrt_price(spec2)).ok()?
+                }
+            }
+            None => self.w.init_pool(cfg, &shared, &newm, ts, start_sqrt_price(spec2)).ok()?,
+        };
         {
             let k = self.w.pools[pool2].key;
             let mut a = self.w.bank.get(&k);
@@ -303,7 +315,7 @@ impl Hist {
         }
         // same fee rate override as the spec asks (the tier may pre-exist with another default)
         let ix = self.w.ix_set_fee_rate(pool2, spec2.fee_rate.min(60000));
-        self.w.must("set_fee_rate(2)", &ix);
+        let _ = self.w.exec(&ix);
         for u in self.lps.clone().into_iter().chain(self.traders.clone()) {
             self.w.user_token(u, &newm, LP_FUND);
         }
